@@ -107,6 +107,30 @@
 (* ELF file yields: "error:notelf" or the opened file's own view without the *)
 (* target (Alternatives) - only those two.  A missing target (the loader has *)
 (* no such file) is a different case (Fail("nofile"), not generated).        *)
+(* Section types and the set of debug sections (strengthening round 5).      *)
+(* Family "stype": the sh_type of the debug sections is a dimension of the   *)
+(* writer - SHT_PROGBITS, SHT_MIPS_DWARF on the MIPS machine (every .debug_* *)
+(* / .zdebug_* section), SHT_X86_64_UNWIND for .eh_frame on x86-64, a type   *)
+(* from the application range for "any other type" - x the plain / gABI /    *)
+(* legacy encodings, the bad-size / bad-type plans, behind a debug link, in   *)
+(* a supplementary pair, and with exception frames only.  The reader machine *)
+(* never looks at sh_type: SHF_COMPRESSED is a flag, the sections are found  *)
+(* by name (TypeBlind: a configuration and its SHT_PROGBITS twin differ in   *)
+(* the type fields only; Invariance / OutcomeMatches do not mention types).  *)
+(* Family "full": a payload that leans on EVERY debug section name a reader   *)
+(* of DWARF 2-5 looks for - DWARF 4: .debug_types (DW_FORM_ref_sig8),        *)
+(* .debug_loc, .debug_ranges, .debug_pubnames, .debug_pubtypes; DWARF 5:      *)
+(* .debug_str_offsets (strx), .debug_line_str (line_strp), .debug_addr        *)
+(* (addrx), .debug_loclists (loclistx), .debug_rnglists (rnglistx); both:     *)
+(* .debug_aranges, .debug_frame next to info / abbrev / str / line - each     *)
+(* written from a small abstract table and read back (FullRoundTrips).  The   *)
+(* encoding is chosen per section: uniform plans and "one section stored as   *)
+(* b, all the others as a" for every section and ordered pair of distinct     *)
+(* encodings (FullCovers).  The reader's list of names is LogicalFull; a name *)
+(* a file does not have is passed over within the step (NextIx).  The view    *)
+(* emitted with the reference (SecViewOf) holds the abstract tables: line     *)
+(* rows, aranges tuples, pubnames / pubtypes entries, location and range      *)
+(* lists, frame entries, the type unit.                                      *)
 (* Not modelled: phantom bytes; relocation types other than S + A (C09 owns   *)
 (* them; the driver's corpus transforms cover compiler-made relocatable files *)
 (* metamorphically: the view of a re-encoded / split object must equal that  *)
@@ -140,6 +164,18 @@ DotDebugAbbrev == <<46, 100, 101, 98, 117, 103, 95, 97, 98, 98, 114, 101, 118>> 
 DotDebugStr == <<46, 100, 101, 98, 117, 103, 95, 115, 116, 114>>                            \* ".debug_str"
 DotDebugLine == <<46, 100, 101, 98, 117, 103, 95, 108, 105, 110, 101>>                      \* ".debug_line"
 DotDebugSup == <<46, 100, 101, 98, 117, 103, 95, 115, 117, 112>>                            \* ".debug_sup"
+DotDebugTypes == <<46, 100, 101, 98, 117, 103, 95, 116, 121, 112, 101, 115>>                                   \* ".debug_types"
+DotDebugAranges == <<46, 100, 101, 98, 117, 103, 95, 97, 114, 97, 110, 103, 101, 115>>                        \* ".debug_aranges"
+DotDebugFrame == <<46, 100, 101, 98, 117, 103, 95, 102, 114, 97, 109, 101>>                                   \* ".debug_frame"
+DotDebugLoc == <<46, 100, 101, 98, 117, 103, 95, 108, 111, 99>>                                               \* ".debug_loc"
+DotDebugRanges == <<46, 100, 101, 98, 117, 103, 95, 114, 97, 110, 103, 101, 115>>                             \* ".debug_ranges"
+DotDebugPubnames == <<46, 100, 101, 98, 117, 103, 95, 112, 117, 98, 110, 97, 109, 101, 115>>                  \* ".debug_pubnames"
+DotDebugPubtypes == <<46, 100, 101, 98, 117, 103, 95, 112, 117, 98, 116, 121, 112, 101, 115>>                 \* ".debug_pubtypes"
+DotDebugStrOffsets == <<46, 100, 101, 98, 117, 103, 95, 115, 116, 114, 95, 111, 102, 102, 115, 101, 116, 115>> \* ".debug_str_offsets"
+DotDebugLineStr == <<46, 100, 101, 98, 117, 103, 95, 108, 105, 110, 101, 95, 115, 116, 114>>                  \* ".debug_line_str"
+DotDebugAddr == <<46, 100, 101, 98, 117, 103, 95, 97, 100, 100, 114>>                                         \* ".debug_addr"
+DotDebugLoclists == <<46, 100, 101, 98, 117, 103, 95, 108, 111, 99, 108, 105, 115, 116, 115>>                 \* ".debug_loclists"
+DotDebugRnglists == <<46, 100, 101, 98, 117, 103, 95, 114, 110, 103, 108, 105, 115, 116, 115>>                \* ".debug_rnglists"
 DotEhFrame == <<46, 101, 104, 95, 102, 114, 97, 109, 101>>                                  \* ".eh_frame"
 DotGnuDebuglink == <<46, 103, 110, 117, 95, 100, 101, 98, 117, 103, 108, 105, 110, 107>>    \* ".gnu_debuglink"
 DotGnuDebugaltlink == <<46, 103, 110, 117, 95, 100, 101, 98, 117, 103, 97, 108, 116, 108, 105, 110, 107>>   \* ".gnu_debugaltlink"
@@ -208,8 +244,104 @@ MainDiesOf(c, const, strp3) ==
   \o (IF AltFormOf(c.sup) # "" THEN <<Die(4, <<A(AltFormOf(c.sup), N(SupStrOff))>>)>> ELSE <<>>)
   \o <<NullDie>>
 MainDies(c) == MainDiesOf(c, 165, StrOffs[4])
+\* ---- the payload "full" (strengthening round 5): a unit whose entries lean on EVERY debug section of its DWARF flavour.
+\* DWARF 4: the range list of the unit in .debug_ranges, a location list in .debug_loc (class rangelistptr / loclistptr, DWARF4 7.5.4:
+\* DW_FORM_sec_offset), a type designated by signature (DW_FORM_ref_sig8, 7.5.4 "reference") whose type unit lives in .debug_types (7.5.1.2);
+\* lookup tables .debug_pubnames / .debug_pubtypes / .debug_aranges (6.1), call frames in .debug_frame (6.4).
+\* DWARF 5: strings through .debug_str_offsets (DW_FORM_strx*, 7.26) and .debug_line_str (DW_FORM_line_strp), an address through .debug_addr
+\* (DW_FORM_addrx, 7.27), lists through the offset tables of .debug_loclists / .debug_rnglists (DW_FORM_loclistx / rnglistx, 7.28 / 7.29) -
+\* the supporting sections are DieEnc's (StrOffsetsSec, LineStrSec, AddrSec, ListsSec); .debug_aranges and .debug_frame as in DWARF 4.
+AtLowPc == 17
+AtLocation == 2
+AtRanges == 85
+AtCompDir == 27
+TagTypeUnit == 65
+FSecOff == "DW_FORM_sec_offset"
+FullDecls(c) ==
+  IF c.ver <= 4
+  THEN << Decl(1, TagCU, TRUE, <<Spec1(AtName, "DW_FORM_strp"), Spec1(AtStmtList, FSecOff), Spec1(AtRanges, FSecOff), Spec1(AtLowPc, "DW_FORM_addr")>>),
+          Decl(2, TagVariable, FALSE, <<Spec1(AtName, "DW_FORM_string"), Spec1(AtLocation, FSecOff)>>),
+          Decl(3, TagTypedef, FALSE, <<Spec1(AtName, "DW_FORM_strp"), Spec1(AtType, "DW_FORM_ref_sig8")>>) >>
+  ELSE << Decl(1, TagCU, TRUE, <<Spec1(AtStrOffsetsBase, FSecOff), Spec1(AtAddrBase, FSecOff), Spec1(AtRnglistsBase, FSecOff), Spec1(AtLoclistsBase, FSecOff),
+                                Spec1(AtName, "DW_FORM_strx1"), Spec1(AtCompDir, "DW_FORM_line_strp"), Spec1(AtStmtList, FSecOff), Spec1(AtLowPc, "DW_FORM_addrx")>>),
+          Decl(2, TagVariable, FALSE, <<Spec1(AtName, "DW_FORM_strx"), Spec1(AtLocation, "DW_FORM_loclistx")>>),
+          Decl(3, TagSubprogram, FALSE, <<Spec1(AtName, "DW_FORM_string"), Spec1(AtLowPc, "DW_FORM_addrx"), Spec1(AtRanges, "DW_FORM_rnglistx")>>) >>
+FullDies(c) ==
+  LET x == PCtx(c) IN
+  IF c.ver <= 4
+  THEN << Die(1, <<A("DW_FORM_strp", N(StrOffs[2])), A(FSecOff, N(0)), A(FSecOff, N(0)), A("DW_FORM_addr", N(4096))>>),
+          Die(2, <<A("DW_FORM_string", B(<<104, 105>>)), A(FSecOff, N(0))>>),
+          Die(3, <<A("DW_FORM_strp", N(StrOffs[4])), A("DW_FORM_ref_sig8", U0.sig)>>), NullDie >>
+  ELSE << Die(1, <<A(FSecOff, N(HdrLen(x))), A(FSecOff, N(HdrLen(x))), A(FSecOff, N(ListsBase(x))), A(FSecOff, N(ListsBase(x))),
+                   Ax("DW_FORM_strx1", N(1), 1), A("DW_FORM_line_strp", N(LineStrOffs[2])), A(FSecOff, N(0)), Ax("DW_FORM_addrx", B(UlebOfNat(0)), 0)>>),
+          Die(2, <<Ax("DW_FORM_strx", B(UlebOfNat(3)), 3), Ax("DW_FORM_loclistx", B(UlebOfNat(0)), 0)>>),
+          Die(3, <<A("DW_FORM_string", B(<<104, 105>>)), Ax("DW_FORM_addrx", B(UlebOfNat(2)), 2), Ax("DW_FORM_rnglistx", B(UlebOfNat(0)), 0)>>), NullDie >>
 MainUnit(c) == [U0 EXCEPT !.ctx = PCtx(c), !.utype = IF c.ver >= 5 THEN "DW_UT_compile" ELSE "legacy",
-                          !.abbrevs = MainDecls(c), !.dies = MainDies(c)]
+                          !.abbrevs = IF c.full THEN FullDecls(c) ELSE MainDecls(c), !.dies = IF c.full THEN FullDies(c) ELSE MainDies(c)]
+\* the DWARF 4 type unit of .debug_types: its abbreviations are a private table behind the compile unit's
+TypeDecls == << Decl(1, TagTypeUnit, TRUE, <<>>), Decl(2, TagBaseType, FALSE, <<Spec1(AtName, "DW_FORM_strp")>>) >>
+TypeUnit(c) == FixType([U0 EXCEPT !.ctx = PCtx(c), !.utype = "tu4", !.abbrevOff = Len(EncAbbrevs(FullDecls(c))), !.abbrevs = TypeDecls,
+                                  !.dies = <<Die(1, <<>>), Die(2, <<A("DW_FORM_strp", N(StrOffs[5]))>>), NullDie>>])
+\* ---- the other sections of the full payload, each written from a small abstract table (and read back: FullRoundTrips)
+InitLenOf(x, body) == (IF x.fmt = 32 THEN Fix(N(Len(body)), 4, x.le) ELSE <<255, 255, 255, 255>> \o Fix(N(Len(body)), 8, x.le)) \o body
+FO(x, n) == Fix(N(n), OffSize(x), x.le)
+FA(x, n) == Fix(N(n), x.asz, x.le)
+\* .debug_aranges (DWARF4 6.1.2, 7.20): unit_length, version 2, debug_info_offset, address_size, segment_size, padding to a multiple of the
+\* tuple size, (address, length) tuples, a (0, 0) terminator
+ArTuples == << <<4096, 16>>, <<8192, 32>> >>
+ArHdrLen(x) == InitLenSize(x) + 2 + OffSize(x) + 2
+ArangesSec(x) ==
+  InitLenOf(x, Fix(N(2), 2, x.le) \o FO(x, 0) \o <<x.asz, 0>> \o Rep(0, RoundUp(ArHdrLen(x), 2 * x.asz) - ArHdrLen(x))
+               \o Flat([i \in 1..Len(ArTuples) |-> FA(x, ArTuples[i][1]) \o FA(x, ArTuples[i][2])]) \o Rep(0, 2 * x.asz))
+\* .debug_pubnames / .debug_pubtypes (DWARF4 6.1.1, 7.19): unit_length, version 2, debug_info_offset, debug_info_length, (offset, name NUL)*, 0
+PubSec(x, infolen, ents) ==
+  InitLenOf(x, Fix(N(2), 2, x.le) \o FO(x, 0) \o FO(x, infolen)
+               \o Flat([i \in 1..Len(ents) |-> FO(x, ents[i][1]) \o ents[i][2] \o <<0>>]) \o Rep(0, OffSize(x)))
+PubNames(c) == LET v == UnitView(MainUnit(c), 0) IN << <<v.dies[2].off, <<104, 105>> >> >>                          \* "hi": the variable
+PubTypes(c) == LET v == UnitView(MainUnit(c), 0) IN << <<v.dies[3].off, CStrAt(StrSec, StrOffs[4]).s>> >>           \* the typedef, by its .debug_str name
+\* .debug_loc (DWARF4 2.6.2, 7.7.3): (begin, end, 2-byte length, expression)*, (0, 0); offsets relative to the unit's base address
+LocEnts == << <<0, 4, <<80>> >>, <<4, 16, <<145, 120>> >> >>                                                        \* DW_OP_reg0; DW_OP_fbreg -8
+LocSec(x) == Flat([i \in 1..Len(LocEnts) |-> FA(x, LocEnts[i][1]) \o FA(x, LocEnts[i][2]) \o Fix(N(Len(LocEnts[i][3])), 2, x.le) \o LocEnts[i][3]])
+             \o Rep(0, 2 * x.asz)
+\* .debug_ranges (DWARF4 2.17.3, 7.24): (begin, end)*, (0, 0)
+RangeEnts == << <<0, 4>>, <<8, 16>> >>
+RangesSec(x) == Flat([i \in 1..Len(RangeEnts) |-> FA(x, RangeEnts[i][1]) \o FA(x, RangeEnts[i][2])]) \o Rep(0, 2 * x.asz)
+\* .debug_frame (DWARF4 6.4.1, 7.23): a version 1 CIE (CIE_id all ones, augmentation "", code alignment 1, data alignment -8, return address
+\* register 16; DW_CFA_def_cfa r7 8, DW_CFA_offset r16 1) and one FDE (CIE_pointer 0, initial_location 0x1000, address_range 16;
+\* DW_CFA_advance_loc 1, DW_CFA_def_cfa_offset 16), each padded with DW_CFA_nop to a multiple of the address size
+NopPad(x, b) == b \o Rep(0, RoundUp(InitLenSize(x) + Len(b), x.asz) - (InitLenSize(x) + Len(b)))
+FrameFde == [loc |-> 4096, range |-> 16]
+FrameSec(x) ==
+  LET cie == NopPad(x, Rep(255, OffSize(x)) \o <<1, 0, 1, 120, 16, 12, 7, 8, 144, 1>>)
+      fde == NopPad(x, FO(x, 0) \o FA(x, FrameFde.loc) \o FA(x, FrameFde.range) \o <<65, 14, 16>>)
+  IN InitLenOf(x, cie) \o InitLenOf(x, fde)
+FrameFdeOff(x) == InitLenSize(x) + Len(NopPad(x, Rep(255, OffSize(x)) \o <<1, 0, 1, 120, 16, 12, 7, 8, 144, 1>>))
+\* .debug_loclists / .debug_rnglists (DWARF5 7.28, 7.29): DieEnc!ListsSec's header and offset table (index 0 -> ListOffs[1], index 1 ->
+\* ListOffs[2] = the byte behind the table), but the list of index 0 is not empty: DW_LLE_offset_pair (4) begin end, counted expression
+\* / DW_RLE_offset_pair (4) begin end, then DW_LLE / DW_RLE_end_of_list (0); the list of index 1 stays the lone end-of-list byte
+LocList5 == << <<0, 4, <<80>> >> >>
+RngList5 == << <<8, 16>> >>
+ListsSecWith(x, list0) ==
+  LET b2 == (IF x.le THEN <<5, 0>> ELSE <<0, 5>>) \o <<x.asz, 0>> \o Fix(N(2), 4, x.le)
+            \o Flat([i \in 1..2 |-> Fix(N(ListOffs(x)[i]), OffSize(x), x.le)]) \o <<0>> \o list0 \o <<0>>
+  IN InitLenOf(x, b2)
+LocListsSec(x) == ListsSecWith(x, Flat([i \in 1..Len(LocList5) |-> <<4>> \o UlebOfNat(LocList5[i][1]) \o UlebOfNat(LocList5[i][2])
+                                                                      \o UlebOfNat(Len(LocList5[i][3])) \o LocList5[i][3]]))
+RngListsSec(x) == ListsSecWith(x, Flat([i \in 1..Len(RngList5) |-> <<4>> \o UlebOfNat(RngList5[i][1]) \o UlebOfNat(RngList5[i][2])]))
+\* the readers of these tables (what the sections say, from their bytes)
+RECURSIVE ReadPairs(_, _, _, _)
+ReadPairs(bs, at, w, le) ==           \* (a, b) pairs of w-byte numbers from 0-based offset `at` up to the (0, 0) terminator
+  LET a == SmallDec(Slice(bs, at + 1, w), le, FALSE)   b == SmallDec(Slice(bs, at + w + 1, w), le, FALSE) IN
+  IF a = 0 /\ b = 0 THEN <<>> ELSE << <<a, b>> >> \o ReadPairs(bs, at + 2 * w, w, le)
+RECURSIVE ReadLoc(_, _, _)
+ReadLoc(bs, at, x) ==
+  LET a == SmallDec(Slice(bs, at + 1, x.asz), x.le, FALSE)   b == SmallDec(Slice(bs, at + x.asz + 1, x.asz), x.le, FALSE)
+      n == SmallDec(Slice(bs, at + 2 * x.asz + 1, 2), x.le, FALSE) IN
+  IF a = 0 /\ b = 0 THEN <<>> ELSE << <<a, b, Slice(bs, at + 2 * x.asz + 3, n)>> >> \o ReadLoc(bs, at + 2 * x.asz + 2 + n, x)
+RECURSIVE ReadPub(_, _, _)
+ReadPub(bs, at, x) ==
+  LET o == SmallDec(Slice(bs, at + 1, OffSize(x)), x.le, FALSE) IN
+  IF o = 0 THEN <<>> ELSE LET nm == CStrAt(bs, at + OffSize(x)).s IN << <<o, nm>> >> \o ReadPub(bs, at + OffSize(x) + Len(nm) + 1, x)
 \* the relocatable carrier: the DW_FORM_strp field of the third entry is relocated against a symbol at offset RelSymValue of
 \* .debug_str (S) with addend RelAddend (A): S + A = StrOffs[4]; the stored field holds A (the place of an Elf_Rel entry IS the
 \* addend; an Elf_Rela entry ignores the place), which designates the tail "c" of "abc" - both readings are well-formed
@@ -232,6 +364,10 @@ LineOps(x) == <<0, 1 + x.asz, 2>> \o Fix(N(4096), x.asz, x.le)        \* DW_LNE_
               \o <<20>> \o <<2, 4>> \o <<1>> \o <<0, 1, 1>>             \* special opcode, advance_pc 4, copy, end_sequence
 LineSec(x) == LET body == Fix(N(3), 2, x.le) \o Fix(N(Len(LineHdrRest)), OffSize(x), x.le) \o LineHdrRest \o LineOps(x)
               IN (IF x.fmt = 32 THEN Fix(N(Len(body)), 4, x.le) ELSE <<255, 255, 255, 255>> \o Fix(N(Len(body)), 8, x.le)) \o body
+\* the rows of that table (DWARF3 6.2.5): set_address 0x1000; special opcode 20: adjusted opcode 20 - 13 = 7, address += 7 \div 14 = 0,
+\* line += -5 + (7 % 14) = 2, a row (0x1000, 3); advance_pc 4 and copy: a row (0x1004, 3); end_sequence: a row (0x1004, 3, end)
+LineRows == << [addr |-> 4096 + (20 - 13) \div 14, line |-> 1 + (251 - 256) + ((20 - 13) % 14), end |-> FALSE],
+               [addr |-> 4096 + 4, line |-> 3, end |-> FALSE], [addr |-> 4096 + 4, line |-> 3, end |-> TRUE] >>
 \* an exception-frame section (LSB core 10.6): CIE "zR" with absolute udata4 pointers, one FDE, terminator
 EhFrame(c) ==
   LET w(n) == Fix(N(n), 4, c.le)
@@ -251,23 +387,55 @@ ParseDebugLink(bs) == LET fn == CStrAt(bs, 0).s   at == RoundUp(Len(fn) + 1, 4) 
 ParseAltLink(bs) == [filename |-> CStrAt(bs, 0).s]
 ParseDebugSup(bs, le) == [version |-> SmallDec(SubSeq(bs, 1, 2), le, FALSE), issup |-> bs[3], filename |-> CStrAt(bs, 3).s]
 
-\* logical sections, in reading order
-Logical == <<"info", "abbrev", "str", "line", "debug_sup", "altlink", "eh_frame">>
-LogSet == {Logical[i] : i \in 1..Len(Logical)}
+\* logical sections, in reading order: the short list for the small payload, every debug section name for the payload "full"
+LogicalBase == <<"info", "abbrev", "str", "line", "debug_sup", "altlink", "eh_frame">>
+LogicalFull == <<"info", "abbrev", "str", "line", "types", "aranges", "frame", "loc", "ranges", "pubnames", "pubtypes",
+                 "str_offsets", "line_str", "addr", "loclists", "rnglists", "debug_sup", "altlink", "eh_frame">>
+LogicalOf(c) == IF c.full THEN LogicalFull ELSE LogicalBase
+LogSet == {LogicalFull[i] : i \in 1..Len(LogicalFull)}
 PlainName(l) == CASE l = "info" -> DotDebugInfo [] l = "abbrev" -> DotDebugAbbrev [] l = "str" -> DotDebugStr [] l = "line" -> DotDebugLine
                   [] l = "debug_sup" -> DotDebugSup [] l = "altlink" -> DotGnuDebugaltlink [] l = "eh_frame" -> DotEhFrame
+                  [] l = "types" -> DotDebugTypes [] l = "aranges" -> DotDebugAranges [] l = "frame" -> DotDebugFrame [] l = "loc" -> DotDebugLoc
+                  [] l = "ranges" -> DotDebugRanges [] l = "pubnames" -> DotDebugPubnames [] l = "pubtypes" -> DotDebugPubtypes
+                  [] l = "str_offsets" -> DotDebugStrOffsets [] l = "line_str" -> DotDebugLineStr [] l = "addr" -> DotDebugAddr
+                  [] l = "loclists" -> DotDebugLoclists [] l = "rnglists" -> DotDebugRnglists
+\* the debug sections of the two flavours of the full payload (every .debug_ name but the link section .debug_sup, which the link
+\* families carry)
+FullSecs(ver) == IF ver <= 4 THEN {"info", "abbrev", "str", "line", "types", "aranges", "frame", "loc", "ranges", "pubnames", "pubtypes"}
+                 ELSE {"info", "abbrev", "str", "line", "aranges", "frame", "str_offsets", "line_str", "addr", "loclists", "rnglists"}
+ASSUME FullSecs(4) \cup FullSecs(5) \cup {"debug_sup", "altlink", "eh_frame"} = LogSet
 Absent == [p |-> FALSE, b |-> <<>>]
 Have(b) == [p |-> TRUE, b |-> b]
+\* the sections only the full payload has
+FullOnly(c, l) ==
+  LET x == PCtx(c) IN
+  IF ~c.full \/ l \notin FullSecs(c.ver) THEN Absent
+  ELSE CASE l = "types" -> Have(UnitBytes(TypeUnit(c)))
+         [] l = "aranges" -> Have(ArangesSec(x))
+         [] l = "frame" -> Have(FrameSec(x))
+         [] l = "loc" -> Have(LocSec(x))
+         [] l = "ranges" -> Have(RangesSec(x))
+         [] l = "pubnames" -> Have(PubSec(x, UnitSize(MainUnit(c)), PubNames(c)))
+         [] l = "pubtypes" -> Have(PubSec(x, UnitSize(MainUnit(c)), PubTypes(c)))
+         [] l = "str_offsets" -> Have(StrOffsetsSec(x))
+         [] l = "line_str" -> Have(LineStrSec)
+         [] l = "addr" -> Have(AddrSec(x))
+         [] l = "loclists" -> Have(LocListsSec(x))
+         [] l = "rnglists" -> Have(RngListsSec(x))
+         [] OTHER -> Absent
 \* P: the logical content of the debug sections of the file that carries them; S: of the supplementary file
 PayloadOf(c, unit) ==
   IF c.sup = "is_sup"
   THEN [l \in LogSet |-> CASE l = "info" -> Have(InfoBytes(<<SupUnit(c)>>)) [] l = "abbrev" -> Have(EncAbbrevs(SupDecls)) [] l = "str" -> Have(SupStrSec)
                            [] l = "debug_sup" -> Have(DebugSupRec(c, 1, <<>>)) [] OTHER -> Absent]
-  ELSE [l \in LogSet |-> CASE l = "info" -> Have(InfoBytes(<<unit>>)) [] l = "abbrev" -> Have(EncAbbrevs(MainDecls(c))) [] l = "str" -> Have(StrSec)
+  ELSE [l \in LogSet |-> CASE l = "info" -> Have(InfoBytes(<<unit>>))
+                           [] l = "abbrev" -> Have(IF c.full THEN EncAbbrevs(FullDecls(c)) \o (IF c.ver <= 4 THEN EncAbbrevs(TypeDecls) ELSE <<>>) ELSE EncAbbrevs(MainDecls(c)))
+                           [] l = "str" -> Have(StrSec)
                            [] l = "line" -> IF c.line THEN Have(LineSec(PCtx(c))) ELSE Absent
                            [] l = "debug_sup" -> IF c.sup = "debug_sup" THEN Have(DebugSupRec(c, 0, SupFileName)) ELSE Absent
                            [] l = "altlink" -> IF c.sup = "altlink" THEN Have(AltLinkRec(SupFileName)) ELSE Absent
-                           [] l = "eh_frame" -> IF c.eh THEN Have(EhFrame(c)) ELSE Absent]
+                           [] l = "eh_frame" -> IF c.eh THEN Have(EhFrame(c)) ELSE Absent
+                           [] OTHER -> FullOnly(c, l)]
 \* P: what a reader must load = the stored content, relocated when the carrier is relocatable and the client asks for it
 ViewUnit(c) == IF c.rel # "none" /\ ~c.reloc THEN UnrelocUnit(c) ELSE MainUnit(c)
 PayloadP(c) == PayloadOf(c, ViewUnit(c))
@@ -281,15 +449,37 @@ NoPayload(c) == [l \in LogSet |-> IF l = "eh_frame" /\ c.eh THEN Have(EhFrame(c)
 (* ----------------------------- the writer ------------------------------ *)
 ShfCompressed == 2048                           \* gABI: SHF_COMPRESSED 0x800
 ChdrRec(t, size, align) == [ch_type |-> N(t), ch_reserved |-> Z, ch_size |-> N(size), ch_addralign |-> N(align)]
-DbgSec(name, flags, data) == Sec(name, N(1), N(flags), Z, data, N(Len(data)), Z, Z, N(1), Z)
+DbgSecT(name, type, flags, data) == Sec(name, type, N(flags), Z, data, N(Len(data)), Z, Z, N(1), Z)
+DbgSec(name, flags, data) == DbgSecT(name, N(1), flags, data)
+\* ---- the section TYPE of a debug section (strengthening round 5).  The gABI gives .debug the type SHT_PROGBITS, but a reader finds the
+\* DWARF sections by NAME; SHF_COMPRESSED is a FLAG that "applies only to non-allocable sections, and cannot be used in conjunction with
+\* SHT_NOBITS sections" (gABI ch.4 "Section compression": no other condition on the type), and toolchains use other types: the MIPS psABI supplement / binutils give every .debug_* (and .zdebug_*) section the type
+\* SHT_MIPS_DWARF (0x7000001e); the x86-64 psABI (4.2.4, table 4.10) gives .eh_frame the type SHT_X86_64_UNWIND (0x70000001); a
+\* type from the range reserved for application programs (gABI: SHT_LOUSER 0x80000000 .. SHT_HIUSER 0xffffffff; here 0x80000005)
+\* stands for any other type, known to a reader or not.
+STypes == {"progbits", "mips_dwarf", "unwind", "user"}
+ShtProgbits == N(1)
+ShtMipsDwarf == W(<<30, 0, 0, 112>>)
+ShtX8664Unwind == W(<<1, 0, 0, 112>>)
+ShtUser == W(<<5, 0, 0, 128>>)
+\* which types a class / byte order pair (hence machine, MachOf) admits besides SHT_PROGBITS
+STypesOf(cl) == {"user"} \cup (IF cl = <<32, FALSE>> THEN {"mips_dwarf"} ELSE {}) \cup (IF cl = <<64, TRUE>> THEN {"unwind"} ELSE {})
+ShtOf(c, l) == CASE c.stype = "mips_dwarf" /\ l \notin {"eh_frame", "altlink"} -> ShtMipsDwarf
+                 [] c.stype = "user" /\ l \notin {"eh_frame", "altlink"} -> ShtUser
+                 [] c.stype = "unwind" /\ l = "eh_frame" -> ShtX8664Unwind
+                 [] OTHER -> ShtProgbits
 AllPlans == {"mix", "plain", "gabi", "gabi_blk", "gabi_info", "gabi_str", "gabi_badsize", "gabi_smallsize", "gabi_badtype", "z", "z_blk", "z_mixed", "z_badmagic",
              "z_badsize", "z_smallsize", "z_short"}
 BlkOf(plan) == IF plan \in {"gabi_blk", "z_blk"} THEN 16 ELSE 65535
 \* the encoding of logical section l under a plan; link records and the exception frames follow their own rules below
+\* (a per-section plan of the full payload is a tuple over the 17 .debug_ names)
 MixIx(l) == CASE l = "info" -> 1 [] l = "abbrev" -> 2 [] l = "str" -> 3 [] l = "line" -> 4 [] l = "debug_sup" -> 5
+              [] l = "types" -> 6 [] l = "aranges" -> 7 [] l = "frame" -> 8 [] l = "loc" -> 9 [] l = "ranges" -> 10 [] l = "pubnames" -> 11
+              [] l = "pubtypes" -> 12 [] l = "str_offsets" -> 13 [] l = "line_str" -> 14 [] l = "addr" -> 15 [] l = "loclists" -> 16 [] l = "rnglists" -> 17
+MixSecs == LogSet \ {"altlink", "eh_frame"}
 EncOf(plan, l, c) ==
   CASE plan \in {"plain", "none"} -> "plain"
-    [] plan = "mix" -> c.mix[MixIx(l)]
+    [] plan = "mix" -> IF MixIx(l) <= Len(c.mix) THEN c.mix[MixIx(l)] ELSE "plain"
     [] plan \in {"gabi", "gabi_blk"} -> "gabi"
     [] plan = "gabi_info" -> IF l = "info" THEN "gabi" ELSE "plain"
     [] plan = "gabi_str" -> IF l = "str" THEN "gabi" ELSE "plain"
@@ -308,16 +498,16 @@ EncOfSec(plan, l, c) == IF l \in {"eh_frame", "altlink"} THEN "plain" ELSE EncOf
 Declared(enc, n) == IF enc \in {"gabi_badsize", "z_badsize"} THEN n + 1 ELSE IF enc \in {"gabi_smallsize", "z_smallsize"} THEN n - 1 ELSE n
 EncSec(l, data, enc, c, blk) ==
   LET name == PlainName(l) IN
-  CASE enc = "plain" -> IF l = "eh_frame" THEN Sec(name, N(1), N(2), N(8192), data, N(Len(data)), Z, Z, N(4), Z) ELSE DbgSec(name, 0, data)
+  CASE enc = "plain" -> IF l = "eh_frame" THEN Sec(name, ShtOf(c, l), N(2), N(8192), data, N(Len(data)), Z, Z, N(4), Z) ELSE DbgSecT(name, ShtOf(c, l), 0, data)
     [] enc \in {"gabi", "gabi_badsize", "gabi_smallsize", "gabi_badtype"} ->
-         DbgSec(name, ShfCompressed,
+         DbgSecT(name, ShtOf(c, l), ShfCompressed,
                 Ser(ChdrF(c.cls), ChdrRec(IF enc = "gabi_badtype" THEN 7 ELSE 1, Declared(enc, Len(data)), 1), c.cls, c.le) \o Stored(data, blk))
     [] enc \in {"z", "z_badmagic", "z_badsize", "z_smallsize"} ->
-         DbgSec(ZName(name), 0, (IF enc = "z_badmagic" THEN BadMagic ELSE ZlibMagic) \o Fix(N(Declared(enc, Len(data))), 8, FALSE) \o Stored(data, blk))
-    [] enc = "z_short" -> DbgSec(ZName(name), 0, ZlibMagic \o <<0, 0, 0, 0>>)
+         DbgSecT(ZName(name), ShtOf(c, l), 0, (IF enc = "z_badmagic" THEN BadMagic ELSE ZlibMagic) \o Fix(N(Declared(enc, Len(data))), 8, FALSE) \o Stored(data, blk))
+    [] enc = "z_short" -> DbgSecT(ZName(name), ShtOf(c, l), 0, ZlibMagic \o <<0, 0, 0, 0>>)
 \* the sections of a file that carries payload `pay` under `plan`
 SecsOf(pay, plan, c) ==
-  LET pres == SelectSeq(Logical, LAMBDA l : pay[l].p) IN
+  LET pres == SelectSeq(LogicalFull, LAMBDA l : pay[l].p) IN
   [k \in 1..Len(pres) |-> EncSec(pres[k], pay[pres[k]].b, EncOfSec(plan, pres[k], c), c, BlkOf(plan))]
 LinkSec(c) == DbgSec(DotGnuDebuglink, 0, DebugLinkRec(DbgFileName(c), IF c.dl = "ok" THEN CrcTok ELSE BadTok))
 \* ---- a relocatable carrier: symbol table, its string table, one relocation section for .debug_info (gABI ch.4)
@@ -387,7 +577,9 @@ C0 == [fam |-> "", cls |-> 64, le |-> TRUE, ver |-> 4, fmt |-> 32, line |-> TRUE
        sup |-> "none", supplan |-> "plain", loader |-> FALSE, follow |-> TRUE, mix |-> <<>>,
        rel |-> "none",       \* "rel": the carrier is a relocatable object with a relocation on .debug_info
        reloc |-> TRUE,       \* the client's relocate_dwarf_sections option
-       tgt |-> "elf"]        \* "garbage": the link target (TgtRole) is present but is not an object file
+       tgt |-> "elf",        \* "garbage": the link target (TgtRole) is present but is not an object file
+       stype |-> "progbits", \* the section type of the debug sections (STypes), in every file of the configuration
+       full |-> FALSE]       \* TRUE: the payload that uses every debug section of its DWARF flavour (ver 4 / ver 5)
 \* the link families tie version/format to the container so that both DWARF flavours occur without another factor
 VerOf(cl, sup) == IF sup = "debug_sup" THEN 5 ELSE IF sup = "altlink" THEN 4 ELSE IF cl[1] = 64 THEN 5 ELSE 4
 FmtOf(cl) == IF cl[1] = 64 /\ cl[2] THEN 64 ELSE 32
@@ -453,7 +645,48 @@ RlinkConfigs == {[C0 EXCEPT !.fam = "rlink", !.cls = cl[1], !.le = cl[2], !.ver 
                             !.home = hd[1], !.dl = hd[2], !.loader = TRUE, !.follow = fo, !.reloc = rc] :
                    cl \in ClsLeLinks, pl \in {"plain", "gabi", "z"}, hd \in {<<"main", "none">>, <<"linked", "ok">>, <<"main", "ok">>},
                    fo \in BOOLEAN, rc \in BOOLEAN}
-Configs == (IF "enc" \in Families /\ "mix" \in Plans THEN MixConfigs ELSE {}) \cup (IF "sup" \in Families /\ "mix" \in Plans THEN SupMixConfigs ELSE {}) \cup
+\* ---- the section type of the debug sections x every kind of encoding (the small payload), directly and across links; on the MIPS
+\* machine also the full payload
+StypeConfigs ==
+  UNION {{[C0 EXCEPT !.fam = "stype", !.cls = cl[1], !.le = cl[2], !.ver = VerOf(cl, "none"), !.fmt = FmtOf(cl), !.plan = pl, !.stype = st] :
+            st \in STypesOf(cl) \cup {"progbits"},
+            pl \in Plans \cap {"plain", "gabi", "gabi_blk", "gabi_str", "gabi_badsize", "gabi_smallsize", "gabi_badtype", "z", "z_mixed", "z_smallsize"}} : cl \in ClsLeAll}
+  \cup UNION {{[C0 EXCEPT !.fam = "stype", !.cls = cl[1], !.le = cl[2], !.ver = VerOf(cl, "none"), !.fmt = FmtOf(cl), !.plan = pl, !.stype = st,
+                          !.home = "linked", !.dl = "ok", !.loader = TRUE] : st \in STypesOf(cl), pl \in {"gabi", "z"}} : cl \in ClsLeLinks}
+  \cup UNION {{[C0 EXCEPT !.fam = "stype", !.cls = cl[1], !.le = cl[2], !.ver = VerOf(cl, su), !.fmt = FmtOf(cl), !.plan = pl, !.supplan = pl, !.sup = su,
+                          !.stype = st, !.loader = TRUE] : st \in STypesOf(cl), su \in {"altlink", "debug_sup"}, pl \in {"gabi"}} : cl \in ClsLeLinks}
+  \cup {[C0 EXCEPT !.fam = "stype", !.cls = cl[1], !.le = cl[2], !.ver = VerOf(cl, su), !.fmt = FmtOf(cl), !.sup = su, !.loader = TRUE] :       \* their reference
+          cl \in ClsLeLinks, su \in {"altlink", "debug_sup"}}
+  \* no debugging information but exception frames (presence, non-strictly)
+  \cup UNION {{[C0 EXCEPT !.fam = "stype", !.cls = cl[1], !.le = cl[2], !.plan = "none", !.stype = st] : st \in STypesOf(cl) \cap {"unwind"}} : cl \in ClsLeAll}
+  \cup {[C0 EXCEPT !.fam = "stype", !.cls = 32, !.le = FALSE, !.ver = 4, !.fmt = 32, !.plan = pl, !.stype = st, !.full = TRUE] :
+          st \in {"progbits", "mips_dwarf"}, pl \in {"plain", "gabi", "z"}}
+\* ---- the full payload: uniform plans, and per-section plans "one section stored as b, all the others as a" for every debug section x
+\* of the flavour and every ordered pair of distinct encodings (FullCovers); behind a debug link
+\* (the full payload is written in the 32-bit DWARF format: the 64-bit format of the lookup tables is outside what the library's readers
+\* claim - C13's quantifier - and container invariance does not depend on it; the small payload covers 64-bit units)
+FullVers(cl) == IF Wide THEN {4, 5} ELSE {IF cl \in {<<64, TRUE>>, <<32, FALSE>>} THEN 4 ELSE 5}
+OneMix(x, a, b) == [i \in 1..17 |-> IF i = MixIx(x) THEN b ELSE a]
+\* the ordered pairs (rest, odd one) of distinct encodings a class / byte order pair takes: all six, or two each so that the two
+\* class / byte order pairs that share a flavour take the four pairs with a plain side between them
+PairsOf(cl) == IF Wide THEN {<<a, b>> : a \in Encs3, b \in Encs3} \ {<<e, e>> : e \in Encs3}
+               ELSE IF cl[1] = 64 THEN {<<"plain", "gabi">>, <<"z", "plain">>} ELSE {<<"plain", "z">>, <<"gabi", "plain">>}
+OneMixes(cl, ver) == {OneMix(x, ab[1], ab[2]) : x \in FullSecs(ver), ab \in PairsOf(cl)}
+FullCovers == \A l \in MixSecs \ {"debug_sup"} : \E ver \in {4, 5} : l \in FullSecs(ver) /\
+                 \A a \in Encs3 : \A b \in Encs3 \ {a} : (Wide \/ a = "plain" \/ b = "plain") => \E cl \in AllClsLe : ver \in FullVers(cl) /\
+                    \E m \in OneMixes(cl, ver) : m[MixIx(l)] = b /\ \A y \in FullSecs(ver) \ {l} : m[MixIx(y)] = a
+ASSUME ClsLeAll = AllClsLe => FullCovers
+FullConfigs ==
+  UNION {{[C0 EXCEPT !.fam = "full", !.cls = cl[1], !.le = cl[2], !.ver = v, !.fmt = 32, !.plan = pl, !.full = TRUE] :
+            v \in {4, 5}, pl \in Plans \cap {"plain", "gabi", "z"}} : cl \in ClsLeAll}
+  \cup UNION {{[C0 EXCEPT !.fam = "full", !.cls = cl[1], !.le = cl[2], !.ver = v, !.fmt = 32, !.plan = pl, !.full = TRUE] :
+            v \in FullVers(cl), pl \in Plans \cap {"gabi_blk", "z_blk"}} : cl \in ClsLeAll}
+  \cup (IF "mix" \in Plans THEN UNION {UNION {{[C0 EXCEPT !.fam = "full", !.cls = cl[1], !.le = cl[2], !.ver = v, !.fmt = 32, !.plan = "mix", !.mix = m, !.full = TRUE] :
+                                                  m \in OneMixes(cl, v)} : v \in FullVers(cl)} : cl \in ClsLeAll} ELSE {})
+  \cup UNION {{[C0 EXCEPT !.fam = "full", !.cls = cl[1], !.le = cl[2], !.ver = v, !.fmt = 32, !.plan = pl, !.full = TRUE,
+                          !.home = "linked", !.dl = "ok", !.loader = TRUE] : v \in FullVers(cl), pl \in {"gabi", "z"}} : cl \in ClsLeLinks}
+Configs == (IF "stype" \in Families THEN StypeConfigs ELSE {}) \cup (IF "full" \in Families THEN FullConfigs ELSE {}) \cup
+           (IF "enc" \in Families /\ "mix" \in Plans THEN MixConfigs ELSE {}) \cup (IF "sup" \in Families /\ "mix" \in Plans THEN SupMixConfigs ELSE {}) \cup
            (IF "enc" \in Families THEN EncConfigs ELSE {}) \cup (IF "nodwarf" \in Families THEN NoDwarfConfigs ELSE {})
            \cup (IF "dlink" \in Families THEN DlinkConfigs ELSE {}) \cup (IF "sup" \in Families THEN SupConfigs ELSE {})
            \cup (IF "chain" \in Families THEN ChainConfigs ELSE {}) \cup (IF "rlink" \in Families THEN RlinkConfigs ELSE {})
@@ -472,11 +705,15 @@ Compressed(s) == (s.flags.n \div ShfCompressed) % 2 = 1
 Resolve(c, fn) == IF fn = DbgFileName(c) THEN "linked" ELSE IF fn = SupFileName THEN "sup" ELSE "nofile"
 Crc32Of(role) == IF role = "linked" THEN CrcTok ELSE <<0, 0, 0, 0>>
 Slot == IF cur = "sup" THEN "sup" ELSE "home"
+Lg == LogicalOf(cfg)          \* the names the reader looks for, in its order
 Got0 == [home |-> [l \in LogSet |-> Absent], sup |-> [l \in LogSet |-> Absent]]
 \* the supplementary file a set of loaded sections names (DWARF5 7.3.6: only when is_supplementary = 0)
 SupNameOf(g) == IF g["debug_sup"].p /\ ParseDebugSup(g["debug_sup"].b, cfg.le).issup = 0 THEN Have(ParseDebugSup(g["debug_sup"].b, cfg.le).filename)
                 ELSE IF g["altlink"].p THEN Have(ParseAltLink(g["altlink"].b).filename) ELSE Absent
 
+\* the reader looks the names of Lg up in order; a name the file does not have (in either naming) is passed over within the step
+NextIx(f, i) == LET js == {j \in (i + 1)..Len(Lg) : PhysName(f, Lg[j]) # <<>>} IN IF js = {} THEN 0 ELSE Min(js)
+Goto(f, i) == LET j == NextIx(f, i) IN IF j = 0 THEN pc' = "links" /\ ix' = Len(Lg) ELSE pc' = "read" /\ ix' = j
 Init == /\ cfg \in Configs
         /\ files = [main |-> NoFile, linked |-> NoFile, sup |-> NoFile]
         /\ pc = "build" /\ cur = "main" /\ fl = cfg.follow /\ ix = 0 /\ buf = <<>> /\ got = Got0 /\ err = ""
@@ -489,7 +726,7 @@ CheckLink ==
   /\ pc = "open"
   /\ IF cur = "main" /\ HasSec(files[cur], DotGnuDebuglink) /\ ~HasDwarfSecs(files[cur], TRUE) /\ fl /\ cfg.loader
      THEN pc' = "crc" /\ ix' = ix
-     ELSE pc' = "read" /\ ix' = 1
+     ELSE Goto(files[cur], 0)
   /\ UNCHANGED <<cfg, files, cur, fl, buf, got, err>>
 FollowDebugLink ==
   /\ pc = "crc"
@@ -499,21 +736,21 @@ FollowDebugLink ==
      ELSE IF ~IsElf(files[to]) THEN Fail("notelf")
      ELSE cur' = to /\ fl' = TRUE /\ pc' = "open" /\ UNCHANGED <<cfg, files, ix, buf, got, err>>
 Advance(g) == /\ got' = g
-              /\ IF ix < Len(Logical) THEN ix' = ix + 1 /\ pc' = "read" ELSE ix' = ix /\ pc' = "links"
+              /\ Goto(files[cur], ix)
               /\ buf' = <<>>
               /\ UNCHANGED <<cfg, files, cur, fl, err>>
 \* gABI: a section of type SHT_REL / SHT_RELA holds the relocations of the section whose index is its sh_info
-RelocSecsFor(f, n) == {k \in 1..Len(f.secs) : f.secs[k].type.n \in {ShtRel, ShtRela} /\ f.secs[k].info.n = IxOfName(f.secs, n)}
+RelocSecsFor(f, n) == {k \in 1..Len(f.secs) : IsSmall(f.secs[k].type) /\ f.secs[k].type.n \in {ShtRel, ShtRela} /\ f.secs[k].info.n = IxOfName(f.secs, n)}
 \* the logical (uncompressed) content d of the current section is complete: relocate it if the client asked for that and the
 \* file has relocations for it, else deliver it
 Deliver(d) ==
-  LET l == Logical[ix]   f == files[cur] IN
+  LET l == Lg[ix]   f == files[cur] IN
   IF cfg.reloc /\ RelocSecsFor(f, PhysName(f, l)) # {}
   THEN buf' = d /\ pc' = "reloc" /\ UNCHANGED <<cfg, files, cur, fl, ix, got, err>>
   ELSE Advance([got EXCEPT ![Slot][l] = Have(d)])
 ReadSection ==
   /\ pc = "read"
-  /\ LET l == Logical[ix]   f == files[cur]   n == PhysName(f, l) IN
+  /\ LET l == Lg[ix]   f == files[cur]   n == PhysName(f, l) IN
      IF n = <<>> THEN Advance([got EXCEPT ![Slot][l] = Absent])
      ELSE LET s == SecNamed(f, n) IN
           IF Compressed(s) THEN buf' = s.data /\ pc' = "gabi" /\ UNCHANGED <<cfg, files, cur, fl, ix, got, err>>
@@ -541,8 +778,8 @@ ApplyRelocs(d, f, k, i) ==          \* d: section content, k: index of the reloc
           IN ApplyRelocs(SubSeq(d, 1, off) \o Fix(N(symv + addend), w, cfg.le) \o SubSeq(d, off + w + 1, Len(d)), f, k, i + 1)
 Relocate ==
   /\ pc = "reloc"
-  /\ LET f == files[cur]   k == CHOOSE k \in RelocSecsFor(f, PhysName(f, Logical[ix])) : TRUE IN
-     Advance([got EXCEPT ![Slot][Logical[ix]] = Have(ApplyRelocs(buf, f, k, 0))])
+  /\ LET f == files[cur]   k == CHOOSE k \in RelocSecsFor(f, PhysName(f, Lg[ix])) : TRUE IN
+     Advance([got EXCEPT ![Slot][Lg[ix]] = Have(ApplyRelocs(buf, f, k, 0))])
 \* gABI: the data of a SHF_COMPRESSED section start with an Elf_Chdr; ch_size is the size of the uncompressed data
 InflateGabi ==
   /\ pc = "gabi"
@@ -571,7 +808,7 @@ LoadSupplementary ==
      THEN LET to == Resolve(cfg, sn.b) IN
           IF to = "nofile" \/ ~files[to].present THEN Fail("nofile")
           ELSE IF ~IsElf(files[to]) THEN Fail("notelf")
-          ELSE cur' = to /\ pc' = "read" /\ ix' = 1 /\ UNCHANGED <<cfg, files, fl, buf, got, err>>
+          ELSE cur' = to /\ Goto(files[to], 0) /\ UNCHANGED <<cfg, files, fl, buf, got, err>>
      ELSE pc' = "done" /\ UNCHANGED <<cfg, files, cur, fl, ix, buf, got, err>>
 DebugOnly(g) == [l \in LogSet \ {"eh_frame"} |-> g[l]]
 \* ---- the client asks the loaded object again
@@ -637,7 +874,7 @@ Alternatives(c) == IF c.home = "main" /\ c.dl = "badcrc" /\ c.loader /\ c.follow
 
 (* ------------------------------ properties ----------------------------- *)
 TypeOK == /\ pc \in {"build", "open", "crc", "read", "gabi", "legacy", "reloc", "links", "done"}
-          /\ cur \in {"main", "linked", "sup"} /\ fl \in BOOLEAN /\ ix \in 0..Len(Logical)
+          /\ cur \in {"main", "linked", "sup"} /\ fl \in BOOLEAN /\ ix \in 0..Len(Lg)
 Invariance ==
   (pc = "done" /\ Expect(cfg) = "loaded") =>
      /\ err = ""
@@ -688,7 +925,7 @@ SecErr(f, l) ==
              ELSE IF Len(Inflate(SubSeq(b, 13, Len(b)))) # SmallDec(SubSeq(b, 5, 12), FALSE, FALSE) THEN "zsize" ELSE "")
        ELSE ""
 DirectErr(f) == IF ~IsElf(f) THEN "notelf"
-                ELSE LET bad == {i \in 1..Len(Logical) : SecErr(f, Logical[i]) # ""} IN IF bad = {} THEN "" ELSE SecErr(f, Logical[Min(bad)])
+                ELSE LET bad == {i \in 1..Len(Lg) : SecErr(f, Lg[i]) # ""} IN IF bad = {} THEN "" ELSE SecErr(f, Lg[Min(bad)])
 \* is the configuration's link target read at all?
 TgtReached(c) == CASE TgtRole(c) = "sup" -> SupReached(c) [] TgtRole(c) = "linked" -> Followed(c) /\ c.dl = "ok" [] OTHER -> FALSE
 \* reaching a file through a link changes nothing about what is wrong with it: the load ends with the error of opening the
@@ -724,6 +961,40 @@ RoundTrips ==
           q.filename = DbgFileName(cfg) /\ q.crc = tok /\ q.end = Len(r) /\ Len(r) % 4 = 0
     /\ ParseAltLink(AltLinkRec(SupFileName)).filename = SupFileName
     /\ \A s \in {0, 1} : LET q == ParseDebugSup(DebugSupRec(cfg, s, SupFileName), cfg.le) IN q.version = 5 /\ q.issup = s /\ q.filename = SupFileName
+\* ---- the section type of a debug section is not part of the logical content: a configuration and its SHT_PROGBITS twin differ in
+\* the sh_type fields only (and do differ there), and Expect / PayloadP - hence Invariance / OutcomeMatches - do not mention the type
+NoType(sec) == [f \in DOMAIN sec \ {"type"} |-> sec[f]]
+TypeBlind ==
+  (pc = "open" /\ cur = "main" /\ cfg.stype # "progbits") =>
+     LET twin == FilesOf([cfg EXCEPT !.stype = "progbits"]) IN
+     /\ \A role \in {"main", "linked", "sup"} :
+          /\ Len(files[role].secs) = Len(twin[role].secs)
+          /\ \A k \in 1..Len(files[role].secs) : NoType(files[role].secs[k]) = NoType(twin[role].secs[k])
+     /\ \E role \in {"main", "linked", "sup"} : \E k \in 1..Len(files[role].secs) : files[role].secs[k].type # twin[role].secs[k].type
+     /\ \A role \in {"main", "linked", "sup"} : \A k \in 1..Len(files[role].secs) :
+          files[role].secs[k].type # twin[role].secs[k].type => files[role].secs[k].type \in {ShtMipsDwarf, ShtX8664Unwind, ShtUser}
+\* ---- the full payload: every debug section of the flavour is there and is not empty, no other is; the tables read back from the bytes
+\* are the abstract ones; the signature the typedef refers to is the type unit's, whose type_offset designates its second entry
+FullRoundTrips ==
+  (pc = "open" /\ cur = "main" /\ cfg.full) =>
+     LET x == PCtx(cfg)   P == PayloadP(cfg)   hl == InitLenSize(x) + 2 + 2 * OffSize(x) IN
+     /\ \A l \in LogSet \ {"debug_sup", "altlink", "eh_frame"} : P[l].p = (l \in FullSecs(cfg.ver)) /\ (P[l].p => Len(P[l].b) > 0)
+     /\ ReadPairs(P["aranges"].b, RoundUp(ArHdrLen(x), 2 * x.asz), x.asz, x.le) = ArTuples
+     /\ Len(P["frame"].b) % x.asz = 0
+     /\ SmallDec(Slice(P["frame"].b, FrameFdeOff(x) + InitLenSize(x) + OffSize(x) + 1, x.asz), x.le, FALSE) = FrameFde.loc
+     /\ cfg.ver >= 5 =>
+          /\ P["loclists"].b[ListsBase(x) + ListOffs(x)[1] + 1] = 4 /\ P["loclists"].b[ListsBase(x) + ListOffs(x)[2] + 1] = 0
+          /\ P["rnglists"].b[ListsBase(x) + ListOffs(x)[1] + 1] = 4 /\ P["rnglists"].b[ListsBase(x) + ListOffs(x)[2] + 1] = 0
+          /\ P["loclists"].b[Len(P["loclists"].b)] = 0 /\ P["rnglists"].b[Len(P["rnglists"].b)] = 0
+     /\ cfg.ver <= 4 =>
+          /\ ReadPairs(P["ranges"].b, 0, x.asz, x.le) = RangeEnts
+          /\ ReadLoc(P["loc"].b, 0, x) = LocEnts
+          /\ ReadPub(P["pubnames"].b, hl, x) = PubNames(cfg)
+          /\ ReadPub(P["pubtypes"].b, hl, x) = PubTypes(cfg)
+          /\ LET tu == TypeUnit(cfg)   tv == UnitView(tu, 0)   mv == UnitView(MainUnit(cfg), 0) IN
+             /\ tv.dies[2].off = tu.typeoff
+             /\ mv.dies[3].attrs[2].form = "DW_FORM_ref_sig8" /\ FinalAttr(MainUnit(cfg).dies[3].attrs[2]).v = tu.sig
+             /\ UnitBytes(tu) = P["types"].b
 \* questions: the answers are a function of the configuration, whatever was asked before
 HasSupLink(c) == c.sup \in {"altlink", "debug_sup"}
 DeclAnswer(c, q) == CASE q = "name" -> [q |-> q, p |-> HasSupLink(c), b |-> IF HasSupLink(c) THEN SupFileName ELSE <<>>]
@@ -736,23 +1007,27 @@ SupAgain == (\E i \in 1..Len(ans) : ans[i].q = "sup" /\ ans[i].p) => LoadAll(fil
 \* termination: a variant function that every step decreases (the files form a chain main > linked > sup)
 Rank(r) == CASE r = "main" -> 2 [] r = "linked" -> 1 [] r = "sup" -> 0
 ASSUME MaxQueries \in 0..7
-Measure == (MaxQueries - Len(qs)) + 8 * Rank(cur) * 64 + 8 * (CASE pc = "build" -> 63 [] pc = "open" -> 60 [] pc = "crc" -> 59 [] pc = "read" -> 50 - 4 * ix [] pc = "gabi" -> 49 - 4 * ix
-                               [] pc = "legacy" -> 48 - 4 * ix [] pc = "reloc" -> 47 - 4 * ix [] pc = "links" -> 2 [] pc = "done" -> 0)
+Measure == (MaxQueries - Len(qs)) + 8 * Rank(cur) * 128 + 8 * (CASE pc = "build" -> 127 [] pc = "open" -> 120 [] pc = "crc" -> 119 [] pc = "read" -> 100 - 4 * ix [] pc = "gabi" -> 99 - 4 * ix
+                               [] pc = "legacy" -> 98 - 4 * ix [] pc = "reloc" -> 97 - 4 * ix [] pc = "links" -> 2 [] pc = "done" -> 0)
 Progress == [][Measure' < Measure]_vars
 MeasureNat == Measure >= 0
 
 (* ------------------------------- emission ------------------------------ *)
 Bit(b) == IF b THEN 1 ELSE 0
 \* key of the images a configuration uses (everything but loader / follow), and of the plain reference of the same payload
-ImgKey(c) == <<c.cls, Bit(c.le), c.ver, c.fmt, Bit(c.line), Bit(c.eh), c.plan, c.dl, c.home, c.sup, c.supplan, c.mix, c.rel, c.tgt>>
+ImgKey(c) == <<c.cls, Bit(c.le), c.ver, c.fmt, Bit(c.line), Bit(c.eh), c.plan, c.dl, c.home, c.sup, c.supplan, c.mix, c.rel, c.tgt, c.stype, Bit(c.full)>>
 \* class of the link target for reports
 TgtTag(c) == IF c.tgt = "garbage" THEN "/target=not-elf" ELSE IF BadKind(c.supplan) # "" THEN "/target=" \o c.supplan ELSE ""
 \* class of a plan for reports: a per-section plan is named after how .debug_info is stored
-PlanTag(c) == IF c.plan = "mix" THEN "mix.info-" \o c.mix[1] ELSE c.plan
+\* ... a one-against-the-rest plan of the full payload after the section that is stored differently
+OddSec(c) == CHOOSE l \in FullSecs(c.ver) : \A y \in FullSecs(c.ver) \ {l} : c.mix[MixIx(y)] # c.mix[MixIx(l)]
+RestSec(c) == CHOOSE y \in FullSecs(c.ver) : y # OddSec(c)
+PlanTag(c) == IF c.plan = "mix" /\ c.full THEN "one." \o OddSec(c) \o "-" \o c.mix[MixIx(OddSec(c))] \o ".rest-" \o c.mix[MixIx(RestSec(c))]
+              ELSE IF c.plan = "mix" THEN "mix.info-" \o c.mix[1] ELSE c.plan
 \* the reference of a relocatable carrier is the plain, link-free object under the same relocate option
-RefKey(c, suploaded) == <<c.cls, Bit(c.le), c.ver, c.fmt, Bit(c.line), Bit(c.eh), c.sup, Bit(suploaded), c.rel, IF c.rel = "none" THEN 1 ELSE Bit(c.reloc)>>
-IsRef(c) == c.plan = "plain" /\ c.dl = "none" /\ c.supplan = "plain" /\ c.home = "main"
-CanonForImages(c) == c.follow /\ c.reloc /\ (c.loader = (c.fam \notin {"enc", "nodwarf"} /\ ~(c.fam = "dlink" /\ c.dl = "none")))
+RefKey(c, suploaded) == <<c.cls, Bit(c.le), c.ver, c.fmt, Bit(c.line), Bit(c.eh), c.sup, Bit(suploaded), c.rel, IF c.rel = "none" THEN 1 ELSE Bit(c.reloc), Bit(c.full)>>
+IsRef(c) == c.plan = "plain" /\ c.dl = "none" /\ c.supplan = "plain" /\ c.home = "main" /\ c.stype = "progbits"
+CanonForImages(c) == c.follow /\ c.reloc /\ (c.fam \in {"stype", "full"} \/ c.loader = (c.fam \notin {"enc", "nodwarf"} /\ ~(c.fam = "dlink" /\ c.dl = "none")))
 ImgLine(role) ==
   LET im == ImageOf(files[role], cfg)
       lk == SecIx(files[role], DotGnuDebuglink)
@@ -762,7 +1037,7 @@ ImgLine(role) ==
 CaseLine ==
   [k |-> "case", fam |-> cfg.fam, img |-> ImgKey(cfg), cls |-> cfg.cls, le |-> cfg.le, ver |-> cfg.ver, fmt |-> cfg.fmt, plan |-> cfg.plan, plantag |-> PlanTag(cfg), mix |-> cfg.mix,
    dl |-> cfg.dl, home |-> cfg.home, sup |-> cfg.sup, supplan |-> cfg.supplan, loader |-> cfg.loader, follow |-> cfg.follow,
-   rel |-> cfg.rel, reloc |-> cfg.reloc, tgt |-> cfg.tgt, tgttag |-> TgtTag(cfg),
+   rel |-> cfg.rel, reloc |-> cfg.reloc, tgt |-> cfg.tgt, tgttag |-> TgtTag(cfg), stype |-> cfg.stype, full |-> cfg.full,
    isref |-> IsRef(cfg), refkey |-> RefKey(cfg, SupLoaded),
    \* the view
    outcome |-> Outcome, alt |-> Alternatives(cfg), suploaded |-> SupLoaded,
@@ -773,8 +1048,22 @@ CaseLine ==
    files |-> [linked |-> IF files.linked.present THEN DbgFileName(cfg) ELSE <<>>, sup |-> IF files.sup.present THEN SupFileName ELSE <<>>],
    eh |-> got.home["eh_frame"].p]
 \* the specification's view of the payload's units (C04's view), once per reference
+\* what the other sections of the full payload say (the abstract tables they were written from)
+SecViewOf(c) ==
+  LET x == PCtx(c)   old == c.ver <= 4 IN
+  [full |-> c.full, lines |-> IF c.line THEN <<LineRows>> ELSE <<>>,
+   aranges |-> IF c.full THEN [i \in 1..Len(ArTuples) |-> [begin |-> ArTuples[i][1], len |-> ArTuples[i][2], info |-> 0]] ELSE <<>>,
+   frame |-> IF c.full THEN << [kind |-> "CIE", off |-> 0], [kind |-> "FDE", off |-> FrameFdeOff(x), loc |-> FrameFde.loc, range |-> FrameFde.range, cie |-> 0] >> ELSE <<>>,
+   ranges |-> IF c.full /\ old THEN <<RangeEnts>> ELSE <<>>,
+   loc |-> IF c.full /\ old THEN << [i \in 1..Len(LocEnts) |-> [b |-> LocEnts[i][1], e |-> LocEnts[i][2], expr |-> LocEnts[i][3]]] >> ELSE <<>>,
+   pubnames |-> IF c.full /\ old THEN [i \in 1..Len(PubNames(c)) |-> [die |-> PubNames(c)[i][1], name |-> PubNames(c)[i][2], cu |-> 0]] ELSE <<>>,
+   pubtypes |-> IF c.full /\ old THEN [i \in 1..Len(PubTypes(c)) |-> [die |-> PubTypes(c)[i][1], name |-> PubTypes(c)[i][2], cu |-> 0]] ELSE <<>>,
+   types |-> IF c.full /\ old THEN <<UnitView(TypeUnit(c), 0)>> ELSE <<>>,
+   \* DWARF 5: the lists the entries designate through the offset tables of .debug_loclists / .debug_rnglists
+   lists |-> IF c.full /\ ~old THEN << [loc |-> [i \in 1..Len(LocList5) |-> [b |-> LocList5[i][1], e |-> LocList5[i][2], expr |-> LocList5[i][3]]], rng |-> RngList5] >>
+             ELSE <<>>]
 ViewLine ==
-  [k |-> "view", refkey |-> RefKey(cfg, SupLoaded), units |-> <<UnitView(ViewUnit(cfg), 0)>>,
+  [k |-> "view", refkey |-> RefKey(cfg, SupLoaded), units |-> <<UnitView(ViewUnit(cfg), 0)>>, secview |-> SecViewOf(cfg),
    altform |-> AltFormOf(cfg.sup),
    altval |-> IF SupLoaded THEN [k |-> "bytes", b |-> CStrAt(SupStrSec, SupStrOff).s] ELSE [k |-> "num", v |-> N(SupStrOff)]]
 \* one line per maximal sequence of questions (its prefixes are part of it)
